@@ -273,6 +273,19 @@ def lin_check(sc, tier, seed, prop, walk_module, n_hist, depth, rule, assumption
                         progs = {str(i + 1): p for i, p in enumerate(progs)}
                     cases.append({'id': len(cases), 'pre': op['pre'], 'progs': progs, 'mode': 'pipe', 'chunk': spec.get('chunk', 0), 'name': spec['name']})
             break
+    # block-scaled "big value" hammers (harness/scale.go): values of 256 KiB .. 1 MiB, judged in the small universe
+    nbig = 0
+    for op in tlc_json_lines(out):
+        if 'bighammer' in op:
+            for rnd in range(ham_rounds + 1):
+                for spec in op['bighammer']:
+                    progs = spec['progs']
+                    if isinstance(progs, list):
+                        progs = {str(i + 1): p for i, p in enumerate(progs)}
+                    cases.append({'id': len(cases), 'pre': op['pre'], 'progs': progs, 'mode': 'pipe' if rnd % 2 == 0 else 'rr', 'chunk': spec.get('chunk', 0),
+                                  'scale': spec['scale'], 'name': spec['name']})
+                    nbig += 1
+            break
     # forced interleavings: one command held where it first releases the data store lock, a conflicting program run
     # in the gap (MC_conc: GX x GY)
     ngated = 0
@@ -311,7 +324,7 @@ def lin_check(sc, tier, seed, prop, walk_module, n_hist, depth, rule, assumption
         v.cov['transitions'] += s_.get('generated', 0)
     v.cov['tlc_runs'].append({'model': walk_module + ' (simulation: programs)', 'walks': len(walks), 'wall_s': st['wall_s']})
     v.cov['tlc_runs'].extend({'model': 'Trace_Lin (validation)', **s_} for s_ in stats)
-    v.cov['engines']['conc'] = {'histories': len(hists), 'accepted': len(accepted), 'rejected': len(rejected), 'forced_interleavings': ngated,
+    v.cov['engines']['conc'] = {'histories': len(hists), 'accepted': len(accepted), 'rejected': len(rejected), 'forced_interleavings': ngated, 'block_scaled_histories': nbig,
                                 'with_overlapping_operations': sum(1 for h in ok if h.get('overlaps', 0) > 0),
                                 'overlapping_operation_pairs': sum(h.get('overlaps', 0) for h in ok)}
     if ok:
